@@ -279,16 +279,33 @@ fn kind_of(case: &J) -> KineticEnergyKind {
 /// replacing the transformation between two draws (as the adaptation does during warmup)
 trait Retransform {
     fn retransform(&mut self, math: &mut WM, stds: &[f64], mean: &[f64], rt: &J);
+    /// what the transformation reports about itself: diagonal scales, square roots of the retained
+    /// eigenvalues (if a low-rank part is in force), log-determinant, id
+    fn params(&self, math: &mut WM) -> J;
 }
 impl Retransform for TransformedHamiltonian<WM, DiagMassMatrix<WM>> {
     fn retransform(&mut self, math: &mut WM, stds: &[f64], mean: &[f64], _rt: &J) {
         self.transformation_mut().verif_set_transform(math, stds, mean);
+    }
+    fn params(&self, math: &mut WM) -> J {
+        let (stds, inv, mean, logdet, id) = self.transformation().verif_params(math);
+        json!({"stds": vbits(&stds), "inv_stds": vbits(&inv), "mean": vbits(&mean), "logdet": bits(logdet), "id": id, "sqrt_eigs": J::Null})
     }
 }
 impl Retransform for TransformedHamiltonian<WM, LowRankMassMatrix<WM>> {
     /// a full low-rank update (LowRankMassMatrix::update); spectral data may be non-finite, in
     /// which case the update has to be rejected as a whole
     fn retransform(&mut self, math: &mut WM, stds: &[f64], mean: &[f64], rt: &J) {
+        if jb(rt, "regrad", false) {
+            // re-initialisation from a single gradient, as Chain::set_position does on a chain
+            // that has already adapted: diagonal scales from the gradient, no low-rank part
+            let mut pos = math.new_array();
+            math.read_from_slice(&mut pos, mean);
+            let mut grad = math.new_array();
+            math.read_from_slice(&mut grad, stds);
+            self.transformation_mut().update_from_grad(math, &pos, &grad, 1.0, (1e-20, 1e20));
+            return;
+        }
         let Some(lr) = rt.get("lowrank") else { return };
         let vals: Vec<f64> = lr["vals"].as_array().unwrap().iter().map(|x| x.as_f64().unwrap_or(f64::NAN)).collect();
         let vecs: Vec<Vec<f64>> = lr["vecs"]
@@ -299,6 +316,11 @@ impl Retransform for TransformedHamiltonian<WM, LowRankMassMatrix<WM>> {
             .collect();
         let mu = jvf(lr, "mu");
         self.transformation_mut().verif_update(math, stds, mean, &vals, &vecs, &mu);
+    }
+    fn params(&self, math: &mut WM) -> J {
+        let ((stds, inv, mean, _dl, _di), inner, logdet, id) = self.transformation().verif_params(math);
+        json!({"stds": vbits(&stds), "inv_stds": vbits(&inv), "mean": vbits(&mean), "logdet": bits(logdet), "id": id,
+               "sqrt_eigs": inner.map(|(a, _b, _mu, _l)| vbits(&a))})
     }
 }
 
@@ -447,7 +469,9 @@ fn run_with<H: Hamiltonian<WM, Point = TransformedPoint<WM>> + Retransform>(
                 Call::Bytes(n) => json!(["bytes", n]),
             })
             .collect();
+        let params_now = ham.params(&mut math);
         let mut d = json!({
+            "transform_params": params_now,
             "init": coll.init, "leapfrogs": coll.leapfrogs, "registered_draw": coll.draw,
             "rng_calls": calls, "evals": evals_end - evals_start, "script_exhausted": rng.exhausted,
         });
